@@ -1,2 +1,279 @@
-// Package c01: monitor for property C01 (see DESIGN.md section 2).
+// Package c01: verified reads/writes — proofs are complete and sound (DESIGN.md, C01).
+//
+// Layer 1 (hist.go, mut.go, l1.go): the store's proof producers and verifiers on
+// histories committed by the real store, including histories whose binary
+// linking lags the linear chain (fed through ReplicateTx by a harness-side
+// legacy primary). Layer 2/3 (l3.go): pkg/database Verifiable* responses handed
+// to the unmodified client verification code through a tamper layer.
+//
+// The verdict always uses the CLAIM the verifier accepted, never the mutation
+// that was applied: a violation is an accepted statement about the history that
+// the ledger contradicts (and that is not a mere fork after the trusted state,
+// which no verifier holding a single state can refuse).
 package c01
+
+import (
+	"fmt"
+	"math/rand/v2"
+	"os"
+	"runtime"
+	"strings"
+	"sync"
+
+	"github.com/codenotary/immudb/embedded/store"
+
+	"verifharness/internal/fw"
+	"verifharness/internal/ledger"
+)
+
+func init() { fw.RegisterMonitor("C01", "exploration", Run) }
+
+func Run(c *fw.Ctx) {
+	c.Rule = "histories committed by the real store (header v0/v1, KV/tx metadata, 1-32 entries, binary linking tight or lagging via ReplicateTx of relinked exports); " +
+		"completeness: for every pair (all pairs when n<=40, sampled otherwise) and every entry the honest DualProof/DualProofV2/LinearProof/LinearAdvanceProof/Tx.Proof verifies, " +
+		"and the unmodified client accepts the honest pkg/database response and stores (id, ledger alh); soundness: every honest (response, claim) is altered by single operators " +
+		"(each header field, each proof list: flip/drop/duplicate/swap/replace/extra/empty, ids, claimed hashes, entry key/value/metadata, self-consistent forgeries) and PRNG combinations of 2-4; " +
+		"accepted AND (a claimed alh differs from the ledger's while the other side is the ledger's, or the entry is not the ledger's entry of that tx, or the client's new state is not (id, ledger alh)) => violation, " +
+		"except a fork after the trusted state (real linking point and root, linear part re-folded from a real alh at or after the trusted tx). " +
+		"An evaluation is one verifier/client decision judged; distinct = layer x verifier x operator x component x branch (s<t/s=t, inclusion or linear branch, tight/lagging, linear-advance present) x outcome"
+	c.Assume("SHA-256 collisions / preimages do not occur among generated values")
+	c.Assume("the ledger (headers and entries acknowledged by Commit / ReplicateTx, chain-checked by the independent RFC 6962 reference) is the history")
+	c.Assume("a forged continuation after the trusted state that links to the real history is not held against a verifier (undetectable with one trusted state)")
+	c.Assume("unauthenticated response fields Revision and Expired are outside the statement; freshness is not checked")
+	c.Assume("TxEntry.vLen is not covered by the entry digest (no proof can bind it; see C09) and is not compared; digest fields are compared as the 32 bytes the client reads")
+
+	only := os.Getenv("VERIF_C01_ONLY") // development aid: l1 | l3
+	if only != "" {
+		c.Note("restricted to " + only)
+	}
+
+	specs := histSpecs(c)
+	var hists []*hist
+	for _, sp := range specs {
+		h, err := buildHist(c, sp)
+		c.Eval(1)
+		if err != nil {
+			if strings.Contains(err.Error(), "ReplicateTx refused") || strings.Contains(err.Error(), "ReplicateTx changed") {
+				c.Violation("store.ReplicateTx/lagging-header-refused", err.Error(), nil)
+			} else {
+				c.Inconclusive("history " + sp.name + " could not be built: " + err.Error())
+			}
+			continue
+		}
+		// the produced chain must be what the independent reference says a chain is
+		if ps := ledger.ChainProblems(h.hdr[1:]); len(ps) > 0 {
+			c.Violation("history/"+ps[0].Sig, fmt.Sprintf("history %s accepted by the store is not chain-consistent: %s", h.name, ps[0].Detail), map[string][]byte{"history.txt": []byte(h.describeChain())})
+		}
+		c.Distinct(fmt.Sprintf("history|v%d|lagging=%v|n=%d|maxlag=%d", h.version, h.lagging, h.n, h.maxLag))
+		hists = append(hists, h)
+	}
+	defer func() {
+		for _, h := range hists {
+			h.close()
+		}
+	}()
+	if len(hists) > 0 {
+		h := hists[len(hists)-1]
+		for _, x := range hists {
+			if x.lagging && x.n >= 10 {
+				h = x
+			}
+		}
+		var bl []uint64
+		for id := 1; id <= h.n && id <= 24; id++ {
+			bl = append(bl, h.hdr[id].BlTxID)
+		}
+		c.Sample(map[string]any{"history": h.name, "txs": h.n, "header_version": h.version, "BlTxID_of_tx_1..": bl, "max_lag": h.maxLag})
+	}
+	total := 0
+	for _, h := range hists {
+		total += h.n
+	}
+	c.Set("histories", len(hists))
+	c.Set("txs_total", total)
+
+	if only == "" || only == "l1" {
+		layer1(c, hists)
+	}
+	if only == "" || only == "l3" {
+		layer3(c)
+	}
+}
+
+func histSpecs(c *fw.Ctx) []histSpec {
+	var s []histSpec
+	if c.Quick() {
+		s = []histSpec{
+			{"q-v1-tight-40", 40, 1, false, 32},
+			{"q-v0-tight-29", 29, 0, false, 16},
+			{"q-v1-lagging-40", 40, 1, true, 12},
+			{"q-v0-lagging-23", 23, 0, true, 8},
+			{"q-v1-tight-1", 1, 1, false, 4},
+			{"q-v1-lagging-2", 2, 1, true, 4},
+			{"q-v1-lagging-3", 3, 1, true, 4},
+		}
+		return s
+	}
+	r := c.Rand("c01/specs")
+	for i := 0; i < 60; i++ {
+		n := 0
+		switch {
+		case i < 8:
+			n = 1 + i
+		case i < 30:
+			n = 9 + r.IntN(32) // exhaustive pairs
+		case i < 52:
+			n = 41 + r.IntN(120)
+		default:
+			n = 200 + r.IntN(101)
+		}
+		ver := 1
+		if i%3 == 1 {
+			ver = 0
+		}
+		lag := i%2 == 0
+		s = append(s, histSpec{fmt.Sprintf("t%02d-v%d-lag%v-%d", i, ver, lag, n), n, ver, lag, []int{32, 12, 6}[i%3]})
+	}
+	return s
+}
+
+func workers() int {
+	w := runtime.NumCPU()
+	if w > 32 {
+		w = 32
+	}
+	if w < 2 {
+		w = 2
+	}
+	return w
+}
+
+// parallel runs f(0..n-1) on a bounded pool; a panic of the monitor itself is re-raised in the caller.
+func parallel(n int, f func(k int)) {
+	w := workers()
+	if w > n {
+		w = n
+	}
+	var wg sync.WaitGroup
+	var mu sync.Mutex
+	var perr any
+	next := 0
+	for i := 0; i < w; i++ {
+		wg.Add(1)
+		go func() {
+			defer wg.Done()
+			defer func() {
+				if r := recover(); r != nil {
+					mu.Lock()
+					if perr == nil {
+						perr = r
+					}
+					mu.Unlock()
+				}
+			}()
+			for {
+				mu.Lock()
+				k := next
+				next++
+				mu.Unlock()
+				if k >= n {
+					return
+				}
+				f(k)
+			}
+		}()
+	}
+	wg.Wait()
+	if perr != nil {
+		panic(perr)
+	}
+}
+
+// targetsFor lists the t >= s paired with s: all of them in small histories,
+// otherwise the structurally interesting ones plus a PRNG sample.
+func (h *hist) targetsFor(r *rand.Rand, s uint64, exhaustive bool, samples int) []uint64 {
+	n := uint64(h.n)
+	if exhaustive {
+		var out []uint64
+		for t := s; t <= n; t++ {
+			out = append(out, t)
+		}
+		return out
+	}
+	seen := map[uint64]bool{}
+	var out []uint64
+	add := func(t uint64) {
+		if t >= s && t <= n && !seen[t] {
+			seen[t] = true
+			out = append(out, t)
+		}
+	}
+	add(s)
+	add(s + 1)
+	add(s + 2)
+	add(n)
+	// the first tx whose linking point passes s, and its neighbours
+	for t := s + 1; t <= n; t++ {
+		if h.hdr[t].BlTxID > s {
+			add(t - 1)
+			add(t)
+			add(t + 1)
+			break
+		}
+	}
+	for k := 0; k < samples; k++ {
+		add(s + r.Uint64N(n-s+1))
+	}
+	return out
+}
+
+func layer1(c *fw.Ctx, hists []*hist) {
+	ops := allDualOps()
+	c.Set("l1_dual_operators", len(ops))
+	type item struct {
+		h *hist
+		s uint64
+	}
+	var items []item
+	for _, h := range hists {
+		for s := 1; s <= h.n; s++ {
+			items = append(items, item{h, uint64(s)})
+		}
+	}
+	var sampled sync.Once
+	parallel(len(items), func(k int) {
+		it := items[k]
+		h := it.h
+		a := newAcc(c)
+		defer a.flush()
+		r := c.Rand(fmt.Sprintf("c01/l1/%s/%d", h.name, it.s))
+		exh := h.n <= 40
+		nSingle, nMulti := len(ops), 24
+		if !exh {
+			nSingle, nMulti = 48, 10
+		}
+		var other *store.DualProof
+		// a first "other" proof so that the first pair of the row has foreign material too
+		if h.n >= 2 {
+			o1 := uint64(1 + r.IntN(h.n))
+			o2 := o1 + r.Uint64N(uint64(h.n)-o1+1)
+			other, _ = h.st.DualProof(cloneHdr(h.hdr[o1]), cloneHdr(h.hdr[o2]))
+		}
+		for _, t := range h.targetsFor(r, it.s, exh, c.N(6, 8)) {
+			p := h.dualItem(c, a, r, ops, it.s, t, other, nSingle, nMulti)
+			if p != nil {
+				other = p
+				if h.lagging && p.LinearAdvanceProof != nil {
+					sampled.Do(func() {
+						c.Sample(map[string]any{"layer": 1, "history": h.name, "pair": []uint64{it.s, t}, "BlTxID_source": h.hdr[it.s].BlTxID, "BlTxID_target": h.hdr[t].BlTxID,
+							"linear_terms": len(p.LinearProof.Terms), "linear_advance_terms": len(p.LinearAdvanceProof.LinearProofTerms), "honest_proof_verifies": store.VerifyDualProof(p, it.s, t, h.alh[it.s], h.alh[t])})
+					})
+				}
+			}
+			h.linearItem(c, a, r, it.s, t)
+			h.lapItem(c, a, r, it.s, t)
+		}
+		holder := store.NewTx(32, 64)
+		h.inclusionItem(c, a, r, it.s, holder)
+	})
+}
